@@ -13,7 +13,7 @@ tvars == <<vars, l>>
 
 E == Rec[l]
 ToSet(s) == {s[i] : i \in DOMAIN s}
-TreeOfRec(r) == [ch |-> [n \in ToSet(r.nodes) |-> ToSet(r.ch[n])], roots |-> r.roots]
+TreeOfRec(r) == [ch |-> [n \in ToSet(r.nodes) |-> ToSet(r.ch[n])], roots |-> r.roots, err |-> ToSet(r.err), skip |-> ToSet(r.skip)]
 
 TInit == /\ l = 2
          /\ Rec[1].ev = "Init"
@@ -62,6 +62,10 @@ TChk == IsEv("Chk") /\ Chk(E.w) /\ ((hand'[E.w].k = "quit") = E.quit)
 TVisit == IsEv("Visit") /\ ~E.err /\ hand[E.w] = Work(E.path) /\ Visit(E.w)
           /\ (E.quit = (E.path \in quitAt))
 
+\* an unreadable entry: the error is handed over by the worker that lists the parent
+TVisitErr == IsEv("Visit") /\ E.err /\ VisitErr(E.w) /\ visited'[E.path] = visited[E.path] + 1
+             /\ (E.quit = (E.path \in quitAt))
+
 TPush ==
   /\ IsEv("Push")
   /\ IF E.init
@@ -77,7 +81,7 @@ TSetQuit == IsEv("SetQuit") /\ SetQuit(E.w)
 TDeact == IsEv("Deact") /\ Deactivate(E.w) /\ active' = E.remaining
 TAct == IsEv("Act") /\ Activate(E.w)
 
-TNext == TReset \/ TStart \/ TSleep \/ TExit \/ TRecv \/ TChk \/ TVisit \/ TPush \/ TSetQuit \/ TDeact \/ TAct
+TNext == TReset \/ TStart \/ TSleep \/ TExit \/ TRecv \/ TChk \/ TVisit \/ TVisitErr \/ TPush \/ TSetQuit \/ TDeact \/ TAct
 TSpec == TInit /\ [][TNext]_tvars
 
 \* acceptance: every line consumed, and the last run complete
